@@ -2,6 +2,7 @@
 Direct oracle: a shadow Python set of (id(source), id(target), label) triples kept in lock-step; after every operation
 len / iteration / membership / out_edges / in_edges / CfgNode.incoming_edges / outgoing_edges are compared with it.
 Correspondence: the same history on Model/Cfg.v (extracted), every observation compared."""
+import io
 import json
 
 import gtirb_from_repo
@@ -152,6 +153,31 @@ def run_history(ctx, g, rng, length):
             if problems:
                 break
             continue
+        if rng.random() < 0.08:
+            # the other way of obtaining a CFG: the IR is saved and LOADED, and the history goes on with the loaded IR's CFG and nodes
+            # (possible when every endpoint in the set is attached to this IR, so that the file is self-contained)
+            att = [i for i, nd in enumerate(env.nodes) if nd.ir is env.ir]
+            ids_att = {i + 1 for i in att}
+            if all(k[0] in ids_att and k[1] in ids_att for k in shadow):
+                try:
+                    buf = io.BytesIO()
+                    env.ir.save_protobuf_file(buf)
+                    ir2 = g.IR.load_protobuf_file(io.BytesIO(buf.getvalue()))
+                    for i in att:
+                        env.nodes[i] = ir2.get_by_uuid(env.nodes[i].uuid)
+                    env.m_here, env.bi_here = ir2.get_by_uuid(env.m_here.uuid), ir2.get_by_uuid(env.bi_here.uuid)
+                    env.ir = ir2
+                    cfg = ir2.cfg
+                    env.num = {id(n): i + 1 for i, n in enumerate(env.nodes)}
+                except Exception as e:  # noqa: BLE001
+                    problems.append("saving and loading the IR raised %s" % exc_name(g, e))
+                    break
+                ctx.count("reloaded_mid_history")
+                observe(full=True)
+                if problems:
+                    problems = ["after saving and loading the IR: " + p for p in problems]
+                    break
+                continue
         m = rng.choice(["add", "add", "add", "discard", "discard", "remove", "pop", "clear", "update", "ior", "iand", "isub", "ixor"])
         if m == "clear" and rng.random() < 0.7:
             m = "add"
